@@ -91,8 +91,8 @@ func c20(r *Report) {
 					sx, sy := fromAtoi(w, b.X) && !sizeOfContent(w, b.X), fromAtoi(w, b.Y) && !sizeOfContent(w, b.Y)
 					cx, cy := sizeOfContent(w, b.X), sizeOfContent(w, b.Y)
 					switch {
-					case sx && cy && (b.Op == token.GEQ || b.Op == token.GTR) && !ce.Taken,
-						cx && sy && (b.Op == token.LEQ || b.Op == token.LSS) && !ce.Taken:
+					case sx && cy && !ce.Taken && ((b.Op == token.GEQ && !hasMinusOne(b.Y)) || (b.Op == token.GTR && hasMinusOne(b.Y))),
+						cx && sy && !ce.Taken && ((b.Op == token.LEQ && !hasMinusOne(b.X)) || (b.Op == token.LSS && hasMinusOne(b.X))):
 						okStart = true
 					}
 				}
@@ -102,9 +102,30 @@ func c20(r *Report) {
 			// end: clamped (phi with a size-derived edge) or rejected
 			okEnd := false
 			if phi, ok := endV.(*ssa.Phi); ok {
-				for _, e := range phi.Edges {
-					if sizeOfContent(w, e) {
-						okEnd = true
+				for i, e := range phi.Edges {
+					if !sizeOfContent(w, e) {
+						continue
+					}
+					// the clamp must also cover end == size: the guarding comparison is
+					// end >= size (or end > size-1), not end > size
+					for _, ce := range ctrlEdges(phi.Block().Preds[i]) {
+						for _, b := range condLeaves(ce.If.Cond) {
+							if !ce.Taken {
+								continue
+							}
+							if fromAtoi(w, b.X) && !sizeOfContent(w, b.X) && sizeOfContent(w, b.Y) {
+								exact := !hasMinusOne(b.Y)
+								if (b.Op == token.GEQ && exact) || (b.Op == token.GTR && !exact) {
+									okEnd = true
+								}
+							}
+							if fromAtoi(w, b.Y) && !sizeOfContent(w, b.Y) && sizeOfContent(w, b.X) {
+								exact := !hasMinusOne(b.X)
+								if (b.Op == token.LEQ && exact) || (b.Op == token.LSS && !exact) {
+									okEnd = true
+								}
+							}
+						}
 					}
 				}
 			}
@@ -369,6 +390,16 @@ func isFieldLoad(v ssa.Value) bool {
 	}
 	_, ok = ld.X.(*ssa.FieldAddr)
 	return ok
+}
+
+// hasMinusOne: v is <something> - 1 (possibly converted).
+func hasMinusOne(v ssa.Value) bool {
+	b, ok := unwrapConv(v).(*ssa.BinOp)
+	if !ok || b.Op != token.SUB {
+		return false
+	}
+	n, isC := constInt(b.Y)
+	return isC && n == 1
 }
 
 // condLeaves returns the comparison(s) an If condition consists of (the
